@@ -661,7 +661,7 @@ def gen_pair(rng, n, kinds=('g', 't', 's', 'b', 'o')):
             yield f'K {pcase(t)} ~ {pcase(u)}'
 
 # ------------------------------------------------------------------ G-shape
-HOOKS = ['k', 'f', 'n', 's', 'v', 'V', 'u', 'e', 'q', 'm', 'c', 'N', 't', 'nN', 'Nn', 'mc', 'cm', 'se', 'qf', 'fq', 'Vv', 'vV', 'nq', 'eq', 'sVuqc', 'tt', 'ne', 'mn', 'nm']
+HOOKS = ['b', 'cb', 'bc', 'mb', 'x', 'qx', 'xq', 'k', 'f', 'n', 's', 'v', 'V', 'u', 'e', 'q', 'm', 'c', 'N', 't', 'nN', 'Nn', 'mc', 'cm', 'se', 'qf', 'fq', 'Vv', 'vV', 'nq', 'eq', 'sVuqc', 'tt', 'ne', 'mn', 'nm']
 FAM_INPUTS = ['pkg:café/n', 'pkg:py٣/n', 'pkg:\u212a8s/n', 'pkg:Custom/n', 'pkg:7custom/n', 'pkg:custom/n?checksum=', 'pkg:custom/n?x=', 'pkg:custom/n?checksum=SHA1:AB', 'pkg:custom/n', 'pkg:CuStOm/N@1?k=v#s', 'pkg:other/a/b/n', 'pkg:custom', 'pkg:cus%74om/n', 'pkg:cu stom/n', 'pkg:/custom/n', 'pkg:custom/',
               'pkg:custom/n?zz=&checksum=A:00', 'pkg:custom/n?checksum=bad', 'pkg:custom/n?=x', 'pkg:custom/%80', 'pkg:custom/n#%2e', 'x:custom/n', 'pkg:',
               'pkg:custom/n@%FF', 'pkg:custom/a%2Fb/n', 'pkg:Custom2/n', 'pkg:custom/n?Hk=old&ZZ=1']
@@ -680,7 +680,7 @@ def gen_shape(rng, n):
             yield f'H ALk P {hx(s)}'
             yield f'H CRq P {hx(s)}'
     for _ in range(n):
-        fam = rng.choice('AFC') + rng.choice('LLRX') + ''.join(rng.choice('kfnsvVueqmcNt') for _ in range(rng.randint(1, 4)))
+        fam = rng.choice('AFC') + rng.choice('LLRX') + ''.join(rng.choice('kfnsvVueqmcNtbx') for _ in range(rng.randint(1, 4)))
         t = random_tuple(rng); t['ty'] = rng.choice(['custom', 'CUSTOM', 'x'])
         yield f'H {fam} P {hx(spelling_of(rng, t))}'
 
